@@ -21,6 +21,14 @@ def gen_model(rng, small=False):
     req = [r for r in ("for", "func", "delay") if rng.random() < (0.25 if small else 0.45)]
     m = g.build(n_eq=rng.randint(1, 3) if small else rng.randint(2, 5), require=req)
     tags = set(g.tags)
+    if not g.params and rng.random() < 0.5:
+        # a model without any parameter: attributes that are constant expressions (10 / 4) are still expression nodes
+        for v in m["vars"]:
+            if v["type"] == "Real" and not v["dims"] and not v["prefixes"] and rng.random() < 0.6:
+                v["attrs"][rng.choice(["max", "nominal", "start"])] = ("bin", "/", num(rng.randint(5, 20)), num(4))
+                tags.add("attr:constant-expression")
+        tags.add("model-without-parameters")
+        return finish(rng, g, m, tags)
     if not g.params:
         g.decl("p1", prefixes=["parameter"], value=num(round(rng.uniform(0.5, 4), 2)))
         g.params.append("p1")
@@ -73,6 +81,10 @@ def gen_model(rng, small=False):
             if v["name"] == g.vectors[0]:
                 v["attrs"]["max"] = ("bin", "*", num(4), var(p))
                 tags.add("attr:parameter-dependent-on-array")
+    return finish(rng, g, m, tags)
+
+
+def finish(rng, g, m, tags):
     # alias equations
     for i in range(rng.randint(0, 2)):
         nm = "al%d" % (i + 1)
